@@ -165,6 +165,10 @@ type Val struct {
 	TTL     int64  // milliseconds handed to RESTORE / PEXPIRE; 0 = none
 	ExpAt   int64 // absolute expiry the request established (target clock at the request + TTL), ms; 0 = none
 	Allow   int64 // ms the entry's own requests had taken when the expiry was set (the lateness C03 tolerates)
+	// ExpSet: the expiry was established by a request of THIS replay (PEXPIRE / PEXPIREAT / RESTORE ttl): such a
+	// key is gone once the target's clock has reached ExpAt and the next request touches it (lazy expiry, as a
+	// server does) - the "key expires between two bins of a split value" dimension (session 5 audit)
+	ExpSet bool
 	Idle    string
 	Freq    string
 }
@@ -303,6 +307,10 @@ type Target struct {
 	DBs     map[int]map[string]*Val
 	Scripts [][]byte
 	Funcs   []string
+	// LastClock: the target's clock at the last request; ExpiredByClock: keys removed because the clock had
+	// reached the expiry a request of this replay had set
+	LastClock      int64
+	ExpiredByClock int
 	Errors  []string // replies that were errors other than BUSYKEY / Bad data format
 	// Now is the target's clock in ms (nil = 0); Tick runs once per request
 	// (the harness lets virtual time pass there)
@@ -476,8 +484,14 @@ func (c *Conn) apply(cmd string, args []interface{}) (interface{}, error) {
 		if cmd == "xgroup" {
 			k = key(1)
 		}
-		if v := d[k]; v != nil && v.TTL == 1 {
+		if v := d[k]; v != nil && (v.TTL == 1 || (v.ExpSet && v.ExpAt != 0 && c.T.now() >= v.ExpAt)) {
+			if v.TTL != 1 {
+				c.T.ExpiredByClock++
+			}
 			delete(d, k)
+		}
+		if n := c.T.now(); n > c.T.LastClock {
+			c.T.LastClock = n
 		}
 	}
 	get := func(k, kind string) (*Val, bool) {
@@ -524,6 +538,7 @@ func (c *Conn) apply(cmd string, args []interface{}) (interface{}, error) {
 		}
 		v.TTL = n
 		v.ExpAt = c.T.now() + n
+		v.ExpSet = true
 		v.Allow = c.T.TickMs * c.sinceEntryStart(key(0))
 		return int64(1), nil
 	case "pexpireat":
@@ -536,6 +551,7 @@ func (c *Conn) apply(cmd string, args []interface{}) (interface{}, error) {
 			return nil, RedisError("ERR value is not an integer or out of range")
 		}
 		v.ExpAt, v.TTL = n, n-c.T.now()
+		v.ExpSet = true
 		if v.TTL <= 1 {
 			v.TTL = 1 // already past: gone before the next request
 		}
@@ -576,6 +592,7 @@ func (c *Conn) apply(cmd string, args []interface{}) (interface{}, error) {
 		}
 		nv.TTL = n
 		if n != 0 {
+			nv.ExpSet = true
 			nv.ExpAt = c.T.now() + n
 			if absttl {
 				nv.ExpAt = n
